@@ -836,6 +836,9 @@ func (e *Env) trCall(n *ECall) Val {
 	case "cap":
 		a := e.tr(n.Args[0])
 		return Val{T: app("sl_cap", a.T), S: "Int", Ty: intT}
+	case "nrunes": // number of code points of a string
+		a := e.tr(n.Args[0])
+		return Val{T: app("str_nrunes", a.T), S: "Int", Ty: intT}
 	case "seq": // the sequence of elements of a slice of references
 		a := e.tr(n.Args[0])
 		st, ok := a.Ty.Underlying().(*types.Slice)
